@@ -104,4 +104,85 @@ def check_bins_semantics(repo, chk):
             chk.violation("B-sem", bb.key, "base-pad", "base_bound (%s, %s) does not pad the open upper side strictly outwards: the largest event is in no bin" % (lo, hi), file=AB, line=bb.lineno)
     except Unmodelled as e:
         chk.info("B-sem: single_split_bound / base_bound not interpretable: %s" % e)
+    # ---- axis-by-axis refinement: multi_split_bound interpreted on concrete events with the one-axis splitter replaced
+    # by "cut the parent interval at its midpoint" (recording what it is given)
+    ms = cls.methods.get("multi_split_bound")
+    if ms is not None:
+        R = sp.Rational
+        pts = [(R(1), R(7)), (R(2), R(3)), (R(4), R(9)), (R(6), R(1)), (R(8), R(6)), (R(9), R(4)), (R(3), R(8)), (R(7), R(2)),
+               (R(5), R(2)), (R(2), R(5)), (R(10, 3), R(5)), (R(20, 3), R(10, 3)), (R(0), R(0))]  # the last five sit on cut edges / the lower corner
+        datas = np.array([[p_[0] for p_ in pts], [p_[1] for p_ in pts]], dtype=object)
+        seen = []
+
+        def splitter(tr, a, k, n):
+            names = ss.all_param_names()
+            b = dict(zip(names, a))
+            b.update(k)
+            d_, nb, base = b.get(names[0]), b.get(names[1]), b.get(names[2])
+            lo_, hi_ = base
+            seen.append((sorted(np.asarray(d_, dtype=object).reshape(-1).tolist()), sp.sympify(lo_), sp.sympify(hi_), int(nb)))
+            cuts = [sp.sympify(lo_) + (sp.sympify(hi_) - sp.sympify(lo_)) * R(i, int(nb)) for i in range(int(nb) + 1)]
+            return [(cuts[i], cuts[i + 1]) for i in range(int(nb))]
+
+        def ref(points, box, sizes, axis=0):
+            if axis == len(sizes):
+                return [(box, points)]
+            out = []
+            lo_, hi_ = box[0][axis], box[1][axis]
+            nb = sizes[axis]
+            for i in range(nb):
+                a_, b_ = lo_ + (hi_ - lo_) * R(i, nb), lo_ + (hi_ - lo_) * R(i + 1, nb)
+                l2, r2 = list(box[0]), list(box[1])
+                l2[axis], r2[axis] = a_, b_
+                sub = [p_ for p_ in points if a_ <= p_[axis] < b_]
+                out.append((((tuple(l2), tuple(r2)), sub), axis))
+            # breadth-first like the code: all boxes of this axis first, then refine each in order
+            res = []
+            for (bx, sub), _ in out:
+                res.extend(ref(sub, bx, sizes, axis + 1))
+            return res
+
+        for sizes in ([2, 2], [3, 2], [1, 3]):
+            del seen[:]
+            base = (np.array([R(0), R(0)], dtype=object), np.array([R(10), R(10)], dtype=object))
+            try:
+                out = Translator(repo, hooks={"numeric_call_first": _first, ss.key: splitter}, max_depth=3).call_fn(ms, [datas.copy(), [sp.Integer(x) for x in sizes]], {"base_bound": base})
+            except Unmodelled as e:
+                raise AnalysisError("AdaptiveBound.multi_split_bound cannot be interpreted: %s" % e)
+            want = ref(list(pts), ((R(0), R(0)), (R(10), R(10))), sizes)
+            # what the one-axis splitter must be given: for every box of level k, the coordinate k of the events in
+            # that box and that box's own interval along axis k
+            want_calls = []
+            level = [(((R(0), R(0)), (R(10), R(10))), list(pts))]
+            for axis_, nb_ in enumerate(sizes):
+                nxt_ = []
+                for bx_, sub_ in level:
+                    want_calls.append((sorted(p_[axis_] for p_ in sub_), bx_[0][axis_], bx_[1][axis_], nb_))
+                    nxt_.extend(ref(sub_, bx_, sizes[:axis_ + 1], axis_))
+                level = nxt_
+            why = None
+            if sorted(seen, key=str) != sorted(want_calls, key=str):
+                badc = [c for c in seen if c not in want_calls]
+                why = "the one-axis splitter is not given each parent box's own events / interval along the current axis, e.g. %s" % (badc[:1] or seen[:1],)
+            if why:
+                pass
+            elif not (isinstance(out, tuple) and len(out) == 2 and len(out[0]) == len(want) and len(out[1]) == len(want)):
+                why = "returns %s boxes, expected %d" % (len(out[0]) if isinstance(out, tuple) and len(out) == 2 else "?", len(want))
+            else:
+                got = []
+                for bx, dat in zip(out[0], out[1]):
+                    l_, r_ = bx
+                    dat = np.asarray(dat, dtype=object)
+                    got.append(((tuple(sp.sympify(x) for x in np.asarray(l_, dtype=object).reshape(-1)), tuple(sp.sympify(x) for x in np.asarray(r_, dtype=object).reshape(-1))),
+                                sorted(zip(dat[0].tolist(), dat[1].tolist())) if dat.ndim == 2 and dat.shape[0] == 2 else None))
+                wantn = [(bx, sorted(sub)) for bx, sub in want]
+                if sorted(got, key=str) != sorted(wantn, key=str):
+                    bad = [g for g in got if g not in wantn]
+                    why = "child boxes / their events differ from the axis-by-axis refinement, e.g. got %s" % (bad[:1] or got[:1],)
+                elif any(len(set(id(x) for x in pair)) != 2 for pair in out[0]):
+                    why = "a child box shares its corner arrays"
+            chk.oblige("B-sem", "multi_split_bound(13 events, n=%s): every parent box is cut along the current axis within its own bounds, children keep the other axis and get exactly their events (%d splitter calls)" % (sizes, len(seen)), why is None)
+            if why:
+                chk.violation("B-sem", ms.key, "axis-split:%s" % "x".join(map(str, sizes)), "multi_split_bound(n=%s): %s" % (sizes, why), file=AB, line=ms.lineno)
+        decided.add(ms.key)
     return decided
